@@ -65,7 +65,7 @@ Section StackSeq.
              (st : list stbl) : list stbl * status :=
     let ui := next_index st in
     match write_table deflate cfg ui ui refs logs with
-    | Ok (true, _) => if auto then stack_auto cfg st else (st, SOk)       (* no records: no table *)
+    | Ok (true, _) => if auto then (fst (stack_auto cfg st), SOk) else (st, SOk)       (* no records: no table *)
     | Ok (false, data) =>
         let names := map r_name (stack_refs (tables st)) in
         let tx := map (fun r => (r_name r, ref_is_del r)) refs in
@@ -73,7 +73,9 @@ Section StackSeq.
         else match decode_table data with
              | Ok t =>
                  let st1 := st ++ [(t, compaction_size cfg data)] in
-                 if auto then stack_auto cfg st1 else (st1, SOk)
+                 (* the transaction is committed: a failing auto-compaction leaves the stack as
+                    it is and does not make Add fail *)
+                 if auto then (fst (stack_auto cfg st1), SOk) else (st1, SOk)
              | _ => (st, SErr)
              end
     | _ => (st, SErr)
